@@ -40,14 +40,7 @@ def reach_passthrough(s: str) -> bool:
     return d['args'][0] == s and d['kwargs']['k'] == s
 
 
-def object_marker(name: str) -> bool:
-    """
-    '${' + name + '}' is replaced by whatever object_from_string(name) names, for every non-empty name
-    without a line break (the lookup itself is stubbed: it returns a recording tuple).
-
-    pre: 0 < len(name) <= 3 and chr(10) not in name
-    post: _
-    """
+def _object_marker_body(name):
     saved = mw.object_from_string
     mw.object_from_string = lambda n: ('OBJ', n)
     try:
@@ -58,9 +51,28 @@ def object_marker(name: str) -> bool:
     return d['args'][0] == ('OBJ', name) and d['kwargs']['k'] == ('OBJ', name)
 
 
+def object_marker(name: str) -> bool:
+    """
+    '${' + name + '}' is replaced by whatever object_from_string(name) names, for every non-empty name
+    without a line break (the lookup itself is stubbed: it returns a recording tuple).
+
+    pre: 0 < len(name) <= 3 and chr(10) not in name
+    post: _
+    """
+    return _object_marker_body(name)
+
+
 def object_marker_long(name: str) -> bool:
     """
     pre: 0 < len(name) <= 6 and chr(10) not in name
     post: _
     """
-    return object_marker(name)
+    return _object_marker_body(name)
+
+
+def object_marker_xl(name: str) -> bool:
+    """
+    pre: 0 < len(name) <= 16 and chr(10) not in name
+    post: _
+    """
+    return _object_marker_body(name)
